@@ -694,11 +694,12 @@ func shMonotoneClass(c *shCase, rtl bool) string {
 	if nonNative {
 		return ":non-native-direction-with-default-ignorable"
 	}
-	// native direction: only harfbuzz.Buffer.Shape with cluster level 1 and the default ignorable kept in the output
-	if c.API == 1 && c.Level == int(harfbuzz.MonotoneCharacters) && c.Flags&int(harfbuzz.PreserveDefaultIgnorables) != 0 {
+	// native direction: only harfbuzz.Buffer.Shape with cluster level 1 (the default ignorable stays in the buffer, kept by
+	// PreserveDefaultIgnorables or replaced by an invisible glyph, and the Indic reordering around it merges no clusters)
+	if c.API == 1 && c.Level == int(harfbuzz.MonotoneCharacters) {
 		switch cl := shaperClass(&shFont{}, sc); cl {
 		case "indic", "khmer", "myanmar", "use-or-default":
-			return ":native-direction:level1-preserved-default-ignorable:" + cl
+			return ":native-direction:level1-with-default-ignorable:" + cl
 		}
 	}
 	return ""
